@@ -183,6 +183,10 @@ func (s *Stream) close(status int32) error {
 	atomic.StoreInt32(&s.status, status)
 	verifhook.Point("close.status", 0)
 
+	// a closed stream must not be found by lookup any more (it may have been
+	// closed without Unregist, e.g. by the idle task); never remove a successor
+	unregistIfCurrent(s)
+
 	// 关闭 hls
 	if s.tsMuxer != nil {
 		s.tsMuxer.Close()
